@@ -37,7 +37,7 @@ IMF = {'stop_method': 'fixed', 'max_iters': 1}
 
 ENTRY = ['sift', 'get_next_imf', 'mask_sift', 'get_next_imf_mask', 'ensemble_sift', 'complete_ensemble_sift', 'second_layer',
          'mask_second_layer', 'envelope', 'extrema', 'hht', 'holo', 'freq', 'cycle_vector', 'cycle_stat', 'phase_align', 'bin_by_phase',
-         'add_metric', 'normalise', 'wrap', 'equal_dims']
+         'add_metric', 'normalise', 'wrap', 'equal_dims', 'repeat_after_config_edit']
 
 
 def configs(tier):
@@ -48,6 +48,8 @@ def configs(tier):
             n = 3 if tier == 'quick' else 4
         if e in ('phase_align', 'normalise'):
             n = 5
+        if e == 'repeat_after_config_edit':
+            n = 6
         if tier != 'quick' and e in ('sift', 'get_next_imf', 'envelope', 'extrema', 'freq', 'cycle_vector', 'wrap', 'get_next_imf_mask'):
             n = 7
         if e == 'equal_dims':
@@ -279,6 +281,26 @@ def harness(h):
         elif e == 'extrema':
             c.same_results(lambda X, **k: S.get_padded_extrema(X, pad_width=2, **k), [(x,), (col,)],
                            loc_pad_opts={'mode': 'reflect', 'reflect_type': 'odd'}, mag_pad_opts={'mode': 'median', 'stat_length': 1})
+        elif e == 'repeat_after_config_edit':
+            # 'repeating a deterministic call gives an identical result' - also after somebody edited a configuration object
+            # obtained from the library (defaults must not be shared state)
+            calls = [('get_padded_extrema', lambda X: S.get_padded_extrema(X, pad_width=2)),
+                     ('sift', lambda X: S.sift(X, max_imfs=2, imf_opts=dict(IMF)))]
+            first = [c.run(f, x) for _, f in calls]
+            cfgs = [S.get_config(v) for v in ('sift', 'mask_sift')]
+            for cfg in cfgs:
+                cfg['extrema_opts/mag_pad_opts/stat_length'] = 3
+                cfg['extrema_opts/mag_pad_opts/mode'] = 'mean'
+                cfg['extrema_opts/loc_pad_opts/reflect_type'] = 'even'
+                cfg['imf_opts/stop_method'] = 'fixed'
+            again = [c.run(f, x) for _, f in calls]
+            for (nm, _), r1, r2 in zip(calls, first, again):
+                if r1[0] != r2[0] or (r1[0] == 'ok' and not equal(h, r1[1], r2[1])):
+                    c.bad('repeat-call-identical', '%s with default options changes after editing a configuration object' % nm)
+            fresh = S.get_config('sift')
+            if not same_opts(fresh['extrema_opts/mag_pad_opts'], {'mode': 'median', 'stat_length': 1}):
+                c.bad('repeat-call-identical', 'get_config defaults changed after editing another configuration object')
+            h.note('accepted-layouts-compared')
         elif e == 'hht':
             a = np.asarray(h.reals('a', N))
             edges = np.array([1.0, 3.0, 5.0])
